@@ -172,6 +172,11 @@ func Verify(w *World, c *Contract) (res *FuncResult) {
 		x.frameSet = nil
 		x.stack = nil
 		totalRet += verifyRun(w, c, x, res)
+		if x.spec != 0 || x.noObl != 0 {
+			// obligations may have been suppressed silently: never accept that
+			x.errs = append(x.errs, fmt.Sprintf("left-subset: internal error of the VC generator: mode counters not restored (spec=%d, noObl=%d)", x.spec, x.noObl))
+			x.spec, x.noObl = 0, 0
+		}
 		// next decision vector: drop trailing trues, flip the last false
 		d := x.decisions[:min(len(x.decisions), x.decisionPos)]
 		for len(d) > 0 && d[len(d)-1] {
@@ -320,6 +325,11 @@ func verifyRun(w *World, c *Contract, x *Exec, res *FuncResult) int {
 			x.curCExpr = &c.Ensures[i]
 			x.oblige(rs, "ensures", fmt.Sprintf("ensures#%d", e.Dir.Ord), g, r.pos, e.Text)
 			x.curCExpr = nil
+			if c.Block.Has("stepwise") && len(e.Dir.Only) == 0 {
+				// "stepwise": a clause, once it has its own obligation, may be used to prove
+				// the clauses after it (a cut; if it fails, the check fails on it)
+				rs.assume(g)
+			}
 		}
 		x.cover(rs, "canary/return", True, "return is reachable")
 	}
